@@ -138,7 +138,7 @@ fn build_tokens(thorough: bool) -> Vec<(String, Vec<u8>)> {
     for (ci, (csid, basic)) in csids.iter().enumerate() {
         for fmt in 0..4u8 {
             for &f in fields.iter() {
-                if !thorough && ci > 0 && f != fields[0] {
+                if ci > 0 && f != fields[0] && (!thorough || ci > 1) {
                     continue;
                 }
                 if fmt == 3 && f != fields[0] {
@@ -565,7 +565,7 @@ pub fn run(run: &Run) {
     if want("a") {
         let g = DG { tokens: build_tokens(thorough), chunk_sizes: vec![0, 1, 2, 128, 0x7FFF_FFFF, 0x8000_0000], errors: AtomicU64::new(0), messages: AtomicU64::new(0) };
         let depth = 3;
-        let opts = BfsOptions { max_depth: Some(depth), max_states: Some(if thorough { 3_000_000 } else { 400_000 }), ..Default::default() };
+        let opts = BfsOptions { max_depth: Some(depth), max_states: Some(if thorough { 1_500_000 } else { 400_000 }), ..Default::default() };
         let (stats, viols) = bfs(&g, vec![DSt { de: ChunkDeserializer::new(), received: 0 }], &opts);
         run.sample_paths("deserializer token graph", &stats.sample_paths);
         states += stats.states;
